@@ -340,6 +340,13 @@ func fdsRun(script []string, w *bufio.Writer) {
 			}
 			k := atoi(f[2])
 			before := fdsCensus()
+			if mark := os.Getenv("VERIF_TEST_ENVNOISE"); mark != "" && f[1] == "pipe" {
+				// self-test of the orchestrator only: one foreign descriptor allocation, once per marker file
+				if _, err := os.Stat(mark); err != nil {
+					_ = os.WriteFile(mark, nil, 0o644)
+					_, _ = syscall.Open("/dev/null", syscall.O_RDONLY|syscall.O_CLOEXEC, 0)
+				}
+			}
 			o, err := fdsCreate(ioc, f[1])
 			if err != nil {
 				fmt.Fprintf(w, "< fail %s\n", fdsErrClass(err))
